@@ -4,6 +4,7 @@
 -/
 import Xandikos.Http.Spec
 import Xandikos.Http.Multiget
+import Xandikos.Http.Discovery
 import Xandikos.Driver.StoreDriver
 
 namespace Xandikos.HttpDriver
@@ -262,6 +263,35 @@ def step (h : HState) (line : String) : HState × String :=
           | ["404"] => if cur.isSome then some ("C17:existing-member-answered-404 " ++ pctEncode k) else none
           | _ => some "C17:unparsed-answer"
     (h, out ++ " | " ++ verdict v)
+  | ["hboot", principal, d, how] =>
+    -- a start of the server: `--autocreate` (d = 0) or `--defaults` (d = 1); `how` = module for
+    -- the xandikos/wsgi.py start-up, anything else for run_simple_server
+    let w' := if how == "module" then bootModule h.world (fieldS principal) true (d == "1")
+              else boot h.world (fieldS principal) (d == "1")
+    let newColls := w'.colls.keys.filter fun p => !h.abs.colls.contains p
+    ({ h with world := w', abs := { h.abs with colls := h.abs.colls ++ newColls } }, "hboot | ok")
+  | ["COLLS"] =>
+    -- observation: every repository below the root with its type and metadata text, the plain
+    -- directories, the principals: `colls =path:type;cfg,… dirs =p:,… `
+    let ctName : CType → String
+      | .calendar => "calendar" | .addressbook => "addressbook" | .principal => "principal"
+      | .inbox => "schedule-inbox" | .outbox => "schedule-outbox" | .subscription => "subscription"
+      | .other => "other"
+    let cs := h.world.colls.toList.map fun (p, c) =>
+      (p, ctName c.ctype ++ ";" ++ (match c.st.files[configName]? with
+                                     | some t => pctEncode (cfgText t)
+                                     | none => "~"))
+    let ds := (h.world.dirs.toArray.qsort (· < ·)).toList.map fun d => (d, "")
+    (h, "colls " ++ encPairs cs ++ " dirs " ++ encPairs ds ++ " | ok")
+  | ["SETPROP", p, key, value] =>
+    -- PROPPATCH of a property kept in the collection's metadata file; `~` removes it
+    let cp := Path.normpathS (fieldS p)
+    (match h.world.colls[cp]? with
+     | some c =>
+       let (st', o) := setMeta c.st (fieldS key) (field value)
+       ({ h with world := h.world.setColl cp { c with st := st' } },
+        (match o with | .ok => "set" | .failed => "failed") ++ " | ok")
+     | none => (h, "nocoll | ok"))
   | ["restart"] => ({ h with world := h.world.restart }, "restart | ok")
   | [] => (h, "")
   | _ => (h, "bad-op | ok")
